@@ -34,7 +34,6 @@ EXPECTED = {
     ('boltons/dictutils.py', 'OrderedMultiDict._clear_ll'): 'AttributeError branch of a not yet constructed object: contracts start from a constructed one',
     ('boltons/ioutils.py', 'SpooledBytesIO.buffer'): 'AttributeError branch of a not yet constructed object: contracts start from a constructed one',
     ('boltons/ioutils.py', 'SpooledIOBase._checkClosed'): 'ValueError on a closed file: the contracts require an open file',
-    ('boltons/socketutils.py', 'BufferedSocket.recv_close'): 'default maxsize (_UNSET / None): the contract takes an integer maxsize',
 }
 
 
